@@ -56,7 +56,8 @@ package stanza
 //@   ensures [C17.push.ok]     (uaq != nil && typeof(s) == *UnAckedStz) ==> err == nil && len(uaq.Uslice) == old(len(uaq.Uslice)) + 1
 //@   ensures [C17.push.kept]   (uaq != nil && typeof(s) == *UnAckedStz) ==> forall(k, 0, old(len(uaq.Uslice)), uaq.Uslice[k] == old(uaq.Uslice[k]) && uaq.Uslice[k].Id == old(uaq.Uslice[k].Id) && uaq.Uslice[k].Stz == old(uaq.Uslice[k].Stz))
 //@   ensures [C17.push.last]   (uaq != nil && typeof(s) == *UnAckedStz) ==> fresh(uaq.Uslice[old(len(uaq.Uslice))]) && uaq.Uslice[old(len(uaq.Uslice))].Stz == old(s.(*UnAckedStz).Stz)
-//@   ensures [C17.push.id]     (uaq != nil && typeof(s) == *UnAckedStz) ==> uaq.Uslice[old(len(uaq.Uslice))].Id == ite(old(len(uaq.Uslice)) == 0, 1, old(uaq.Uslice[len(uaq.Uslice) - 1].Id) + 1)
+//@   ensures [C17.push.id]     (uaq != nil && typeof(s) == *UnAckedStz && old(len(uaq.Uslice)) > 0) ==> uaq.Uslice[old(len(uaq.Uslice))].Id > old(uaq.Uslice[len(uaq.Uslice) - 1].Id)
+//@   ensures [C10.push.seq]    (uaq != nil && typeof(s) == *UnAckedStz) ==> uaq.Uslice[old(len(uaq.Uslice))].Id == ite(old(len(uaq.Uslice)) == 0, 1, old(uaq.Uslice[len(uaq.Uslice) - 1].Id) + 1)
 //@   ensures [C17.push.nilrecv] uaq == nil ==> err == nil
 //@   ensures wfQueue(uaq)
 //@   assigns uaq.Uslice
